@@ -148,7 +148,9 @@ def rng_determinism(c, fam):
     mk = {'Normal': lambda: Normal(np.zeros(n), 1.0), 'Gaussian': lambda: Gaussian(np.zeros(n), 1.0), 'Laplace': lambda: Laplace(np.zeros(n), 1.0),
           'Uniform': lambda: Uniform(np.zeros(n), np.ones(n)), 'Gamma': lambda: Gamma(np.ones(n), np.ones(n)), 'Beta': lambda: Beta(2 * np.ones(n), 3 * np.ones(n)),
           'InverseGamma': lambda: InverseGamma(2 * np.ones(n), np.zeros(n), np.ones(n)), 'Cauchy': lambda: Cauchy(np.zeros(n), np.ones(n)),
-          'Lognormal': lambda: Lognormal(np.zeros(n), 1.0), 'GMRF': lambda: GMRF(np.zeros(4), 2.0, geometry=cuqi.geometry.Continuous1D(4))}[fam]
+          'Lognormal': lambda: Lognormal(np.zeros(n), 1.0), 'GMRF': lambda: GMRF(np.zeros(4), 2.0, geometry=cuqi.geometry.Continuous1D(4)),
+          'MHN': lambda: cuqi.distribution.ModifiedHalfNormal(2.5 * np.ones(n), 1.5 * np.ones(n), -0.5 * np.ones(n)),
+          'UserDefinedDistribution': lambda: cuqi.distribution.UserDefinedDistribution(dim=n, logpdf_func=lambda x: -0.5 * np.sum(x ** 2), sample_func=lambda: np.random.randn(n))}[fam]
     d = mk(); seed = int(c.real('seed', lo=0, hi=1000))
     np.random.seed(123); before = np.random.get_state()[1].copy()
     a = d.sample(3, rng=np.random.RandomState(seed)).samples
@@ -156,6 +158,39 @@ def rng_determinism(c, fam):
     after = np.random.get_state()[1]
     c.eq('same_generator_state_same_draws', a, b)
     c.holds('global_random_state_untouched', bool(np.all(before == after)))
+    # new-style numpy generators: either refused (a family that calls legacy-only methods) or used like any other generator
+    np.random.seed(123); before = np.random.get_state()[1].copy()
+    g1, g2 = np.random.default_rng(seed), np.random.default_rng(seed)
+    try:
+        a = np.asarray(d.sample(3, rng=g1).samples); b = np.asarray(d.sample(3, rng=g2).samples)
+    except (AttributeError, TypeError):
+        c.holds('new_style_generator_refused', True); return
+    c.eq('new_style_generator:same_generator_state_same_draws', a, b)
+    c.holds('new_style_generator:global_random_state_untouched', bool(np.all(before == np.random.get_state()[1])))
+    c.holds('new_style_generator:the_generator_handed_in_is_consumed', g1.bit_generator.state != np.random.default_rng(seed).bit_generator.state)
+
+
+def mhn_vector_parameters(c):
+    """ModifiedHalfNormal with vector parameters (dimension 2): one draw has one entry per component, N draws are a (2, N) collection for N below, at and above the
+    dimension, and component i is drawn with component i's parameters (its sample mean agrees with that of the scalar distribution with those parameters;
+    bounded stand-in: native, 1500 draws, 6 standard errors)"""
+    from cuqi.distribution import ModifiedHalfNormal
+    a = np.array([1.2, 30.0]); b = np.array([1.5, 0.7]); g = np.array([-0.5, 2.0])
+    d = ModifiedHalfNormal(a, b, g)
+    seed = int(c.real('seed', lo=0, hi=1000))
+    one = d.sample(rng=np.random.RandomState(seed))
+    c.holds('one_draw_has_one_entry_per_component', np.shape(one) == (2,), note=str(np.shape(one)))
+    for N in (2, 3):
+        S = d.sample(N, rng=np.random.RandomState(seed))
+        c.holds(f'sample({N})_is_a_collection_with_one_column_per_draw', np.shape(S.samples) == (2, N), note=str(np.shape(S.samples)))
+    ds = ModifiedHalfNormal(1.2, 1.5, -0.5, geometry=3)               # scalar parameters broadcast over a 3-dimensional geometry
+    c.holds('scalar_parameters_on_a_geometry:one_draw_has_one_entry_per_component', np.shape(ds.sample(rng=np.random.RandomState(seed))) == (3,))
+    c.holds('scalar_parameters_on_a_geometry:one_column_per_draw', np.shape(ds.sample(4, rng=np.random.RandomState(seed)).samples) == (3, 4))
+    S = d.sample(1500, rng=np.random.RandomState(seed)).samples
+    for i in range(2):
+        ref = ModifiedHalfNormal(a[i], b[i], g[i]).sample(1500, rng=np.random.RandomState(seed + 1)).samples.ravel()
+        se = np.sqrt(np.var(ref) / 1500 + np.var(S[i]) / 1500)
+        c.holds(f'component[{i}]_is_drawn_with_its_own_parameters', bool(abs(np.mean(S[i]) - np.mean(ref)) <= 6 * se), note=f"mean {np.mean(S[i]):.4f} vs {np.mean(ref):.4f} (se {se:.4f})")
 
 
 def wrapping(c, fam='Gaussian'):
@@ -397,8 +432,10 @@ def jobs(tier):
         J.append(Job(f'{fam}._sample:generator_denotes_own_density', lambda c, f=fam: law_tag(c, f), 'Pbox', [f'{D}.{mods[fam]}:{fam}._sample'], num=False))
     for fam in ('Normal', 'Gaussian', 'Laplace', 'Uniform', 'Gamma', 'Beta', 'InverseGamma', 'Cauchy', 'Lognormal'):
         J.append(Job(f'{fam}.sample:random_stream_frame', lambda c, f=fam: rng_frame(c, f), 'Pbox', [f'{D}.{mods[fam]}:{fam}._sample', f'{D}._distribution:Distribution.sample'], num=False))
-    for fam in ('Normal', 'Gaussian', 'Laplace', 'Uniform', 'Gamma', 'Beta', 'InverseGamma', 'Cauchy', 'Lognormal', 'GMRF'):
-        J.append(Job(f'{fam}.sample:deterministic_in_supplied_generator', lambda c, f=fam: rng_determinism(c, f), 'B', [f'{D}.{mods[fam]}:{fam}._sample'], nnum=3))
+    mods.update(MHN='_modifiedhalfnormal', UserDefinedDistribution='_custom')
+    for fam in ('Normal', 'Gaussian', 'Laplace', 'Uniform', 'Gamma', 'Beta', 'InverseGamma', 'Cauchy', 'Lognormal', 'GMRF', 'MHN', 'UserDefinedDistribution'):
+        J.append(Job(f'{fam}.sample:deterministic_in_supplied_generator', lambda c, f=fam: rng_determinism(c, f), 'B', [f'{D}.{mods[fam]}:{"ModifiedHalfNormal" if fam == "MHN" else fam}._sample'], nnum=3))
+    J.append(Job('MHN.sample:vector_parameters', mhn_vector_parameters, 'B', [f'{D}._modifiedhalfnormal:ModifiedHalfNormal._sample'], nnum=2))
     for fam in ('Gaussian', 'Normal'):
         J.append(Job(f'{fam}.sample:wrapping_and_refusal', lambda c, f=fam: wrapping(c, f), 'Pbox', [f'{D}._distribution:Distribution.sample']))
     J.append(Job('Lognormal._sample:exp_of_gaussian', lognormal_is_exp_of_gaussian, 'Pbox', [f'{D}._lognormal:Lognormal._sample']))
